@@ -2039,7 +2039,12 @@ def make_builtins(I):
     add("hash", _hash)
 
     def _iter(I, st, a, k):
-        yield st, st.alloc(ListE(I.iterate(a[0], st)))
+        from .loops import lazy_begin, lazy_end
+
+        old = lazy_begin(st)  # iter() is lazy: remember which list it walks (see loops.lazy_check)
+        acc = st.alloc(ListE(I.iterate(a[0], st)))
+        lazy_end(st, old, acc)
+        yield st, acc
 
     add("iter", _iter)
 
